@@ -11,12 +11,13 @@ RULE = (
     "conditional, unary, ${}, $() nested through @() and directly, ![ ], @$(), call macros, tuple/starred targets, del targets, patterns, nested blocks of each compound "
     "statement) nested alternately, and every lengthening constructor (operator chains, argument lists, dict items, "
     "statement lists, string concatenation, decorators, attribute / subscript / comparison / assignment chains), each "
+    "and long runs (64 ... 512 / 1024 copies) of four simple statements in front of nine fixed nested tails; the nesting and lengthening families "
     "closed by every terminator of {valid leaf, 'a b', missing operand, stray '=', unclosed brackets, an f-string, a stray '}'}, at every size of "
     "the bound. Observation: getnext+peek+reset calls of a counting Tokenizer subclass handed to the public parser "
     "constructor (a count above 5000 x tokens aborts the case). Oracle: work(2d) <= 2.6 x work(d) for d >= 8 and "
     "work(d)/tokens(d) <= 4 x the family's value at d = 4. Non-trivial = families measured at all sizes (distinct)."
 )
-BOUND = {"quick": "sizes 4, 8, 16, 32", "thorough": "sizes 4, 8, 16, 32, 64; pairs also with the block constructors"}
+BOUND = {"quick": "sizes 4, 8, 16, 32; prefixed runs 64, 128, 256, 512", "thorough": "sizes 4, 8, 16, 32, 64; pairs also with the block constructors; prefixed runs up to 1024"}
 ASSUMPTIONS = ["token reads and resets are the unit of work (the property's own definition); wall-clock time is not measured"]
 CASE_DEADLINE = 120.0
 CAP = 5000
@@ -59,7 +60,26 @@ def units(tier: str) -> list[tuple]:
     us.append(("patterns", tier))
     us.append(("blocks", tier))
     us.append(("chains", tier))
+    for i in range(len(PREFIX_STMTS)):
+        for j in range(len(PREFIX_TAILS)):
+            us.append(("prefixed", i, j, tier))
     return us
+
+
+# A long run of simple statements in front of a fixed nested tail: the work may grow with the length of the run only
+# linearly (tables that fill up, caches with a size limit, line tables searched linearly only show on long inputs).
+PREFIX_STMTS = ["foo(a, b=1)\n", "x = [1, {2: 'three'}]\n", "$(ls -l $HOME)\n", "if a:\n    b = f'{c!r:>4}'\n"]
+PREFIX_TAILS = [
+    ("valid", "y = 1\n"),
+    ("try4-bad", "try:\n    try:\n        try:\n            try:\n                pass pass\n"),
+    ("if6-bad", "".join("    " * k + "if a:\n" for k in range(6)) + "    " * 6 + "x = (\n"),
+    ("parens-bad", "x = ((((((1))))))\ny = = 2\n"),
+    ("match-bad", "match q:\n    case [[[[C(a, {1: (b | 2)})]]]] if: pass\n"),
+    ("call-bad", "f(g(h(i(j(k=1, *a, **b))))) = 3\n"),
+    ("subproc-bad", "$(echo @($(echo @(1 1))))\n"),
+    ("fstring-bad", "z = f'{a:{b:{c}}} {d!x}'\n"),
+    ("target-bad", "((a, (b, (c, (d, e)))), f) += 1\n"),
+]
 
 
 def sizes(tier: str) -> list[int]:
@@ -110,6 +130,11 @@ def cases(unit: tuple) -> Iterator[dict]:
                 for leaf in ("pass", "a b", "", "x = (", "return (1,"):
                     yield {"family": f"block:{b1[0]}/{b2[0]}:{leaf or 'empty'}", "kind": "block", "b1": list(b1), "b2": list(b2), "leaf": leaf,
                            "sizes": [s for s in sizes(tier) if s <= 32]}
+    elif k == "prefixed":
+        st = PREFIX_STMTS[unit[1]]
+        for tname, tail in PREFIX_TAILS[unit[2] : unit[2] + 1]:
+            yield {"family": f"prefixed:{unit[1]}:{tname}", "kind": "prefixed", "stmt": st, "tail": tail,
+                   "sizes": [64, 128, 256, 512] if tier == "quick" else [64, 128, 256, 512, 1024]}
     elif k == "chains":
         for ch in CHAINS:
             for tail in ("", " b b", " =", " ("):
@@ -120,6 +145,8 @@ def build(case: dict, d: int) -> str:
     if case["kind"] == "pair":
         inner = _nest(tuple(case["c1"]), tuple(case["c2"]), d, tuple(case["term"]))
         return case["tmpl"].format(inner)
+    if case["kind"] == "prefixed":
+        return case["stmt"] * d + case["tail"]
     if case["kind"] == "block":
         src = ""
         for k in range(d):
